@@ -1,7 +1,8 @@
 #!/usr/bin/env python3
-"""tools/keep_seed.py <PROP> <k> <srcdir> <check_result text>  -- copy a confirmed seeded change into seeded/<PROP>-<k>/"""
+"""tools/keep_seed.py <PROP> <k> <srcdir> <check_result text> [<owning check>]  -- copy a confirmed seeded change into seeded/<PROP>-<k>/"""
 import json, os, shutil, sys
 prop, k, src, result = sys.argv[1:5]
+check = sys.argv[5] if len(sys.argv) > 5 else None      # the check that owns the changed code, when it is not the property's own
 dst = os.path.join(os.path.dirname(os.path.dirname(os.path.abspath(__file__))), "seeded", "%s-%s" % (prop, k))
 os.makedirs(dst, exist_ok=True)
 for f in os.listdir(src):
@@ -15,5 +16,7 @@ m["confirmed_by_integrator"] = {
     "how": "tools/mt.sh: patch applied in a scratch worktree of /repo HEAD, library + tests rebuilt with cmake/ninja, ctest 6/6 passed, "
            "demo exit non-zero with the change and 0 without; ./check run in an isolated copy of /verif against the patched worktree",
     "check_result": result}
+if check:
+    m["confirmed_by_integrator"]["check"] = check
 json.dump(m, open(os.path.join(dst, "meta.json"), "w"), indent=1)
 print(dst, sorted(os.listdir(dst)))
